@@ -333,12 +333,14 @@ Definition mt_step (z : mtsz) (s : mtown) (o : mop) : mtown * mrc * list ev :=
   | MInit n fs d r l => mt_init z s n fs d r l
   | MGetBuf cap ok =>
       match mt_buf s, mt_jobs s with
-      | Some p, Some _ =>
-          let '(p', got, e) := get_buffer p cap ok in
-          match got with
-          | Some c => (upd_buf s (Some p') (c :: mt_inflight s), MOk, e)
-          | None => (upd_buf s (Some p') (mt_inflight s), MMem, e)
-          end
+      | Some p, Some j =>
+          if N.of_nat (length (mt_inflight s)) <? j then      (* a job slot is free (ZSTDMT_createCompressionJob: "not enough job slots" otherwise) *)
+            let '(p', got, e) := get_buffer p cap ok in
+            match got with
+            | Some c => (upd_buf s (Some p') (c :: mt_inflight s), MOk, e)
+            | None => (upd_buf s (Some p') (mt_inflight s), MMem, e)
+            end
+          else (s, MSkip, [])
       | _, _ => (s, MSkip, [])
       end
   | MFlush i =>
